@@ -9,7 +9,8 @@ EXPLANATION = ("Effect analysis over the whole compiled crate: (R1) inventory of
                "is proved to target a footer other than the shared static sentinel: the must-facts at the store contain the false edge of is_empty(F) for the same F, or F was created "
                "(obtained from the global allocator) in the same call; (R3) auto-trait inventory: Bump has an explicit Send impl, no Sync impl and Cell fields. "
                "Together: what an arena does is a function of its own fields and chunks, and no memory reachable from two arenas is ever written."
-               ' (R4) nothing that can reach an arena, or carry values that can, is Send / Sync: the compile-verdict witnesses and the auto-trait audit of C05 (including payload probes: a generic container of non-Send elements must not be Send).')
+               ' (R4) nothing that can reach an arena, or carry values that can, is Send / Sync: the compile-verdict witnesses and the auto-trait audit of C05 (including payload probes: a generic container of non-Send elements must not be Send).'
+               ' (R5) no method of an arena-backed type (RawVec, Vec, String, FromUtf8Error ..) overwrites a whole arena-backed value or a &Bump field reachable from one parameter with a value derived from another parameter (mem::swap(self, other), *self = other ..): a collection keeps allocating from the arena it was created in.')
 RULE = "rule instance = (rule, entry point, store site) / inventory entry; distinct by (rule, function, site)"
 
 
@@ -130,3 +131,6 @@ def run(ctx, config='rel-all'):
         from .. import runner
         from . import c05
         c05.run(runner.Sub(ctx, 'R4', 'C05', only={'W2', 'R3'}), config)      # the thread half; lifetimes of borrows inside one thread are C05's own business
+    # ---- R5 a collection never changes the arena it lives in (what arena B does must not depend on arena A's collections)
+    from . import arenaid
+    arenaid.check(ctx, db, 'R5')
